@@ -366,6 +366,17 @@ func (h *Handler) handleCopyMove(w http.ResponseWriter, r *http.Request) (status
 	if dst == src {
 		return http.StatusForbidden, errDestinationEqualsSource
 	}
+	// The FileSystem resolves names after cleaning them, so the comparison
+	// above misses a destination that names the source in another spelling
+	// ("/a/", "/a/.", "/x/../a"). Also, a destination that contains the
+	// source would be deleted by the overwrite step together with the source,
+	// and a MOVE into the source's own subtree would delete the destination
+	// before the rename is refused.
+	if cSrc, cDst := slashClean(src), slashClean(dst); cDst == cSrc {
+		return http.StatusForbidden, errDestinationEqualsSource
+	} else if pathContains(cDst, cSrc) || (r.Method == "MOVE" && pathContains(cSrc, cDst)) {
+		return http.StatusForbidden, errDestinationOverlaps
+	}
 
 	ctx := r.Context()
 
@@ -410,6 +421,15 @@ func (h *Handler) handleCopyMove(w http.ResponseWriter, r *http.Request) (status
 		}
 	}
 	return moveFiles(ctx, h.FileSystem, src, dst, r.Header.Get("Overwrite") == "T")
+}
+
+// pathContains reports whether the cleaned, rooted path dir is a proper
+// ancestor of the cleaned, rooted path name.
+func pathContains(dir, name string) bool {
+	if dir == name {
+		return false
+	}
+	return dir == "/" || strings.HasPrefix(name, dir+"/")
 }
 
 func (h *Handler) handleLock(w http.ResponseWriter, r *http.Request) (retStatus int, retErr error) {
@@ -738,6 +758,7 @@ func StatusText(code int) string {
 
 var (
 	errDestinationEqualsSource = errors.New("webdav: destination equals source")
+	errDestinationOverlaps     = errors.New("webdav: destination and source contain one another")
 	errDirectoryNotEmpty       = errors.New("webdav: directory not empty")
 	errInvalidDepth            = errors.New("webdav: invalid depth")
 	errInvalidDestination      = errors.New("webdav: invalid destination")
